@@ -42,6 +42,7 @@ claim("C01", "DESIGN.md 6 C01",
       "parent waker was woken (join/try_join slice+tuple, merge, zip, FutureGroup, StreamGroup), plus quiescence (no wake outstanding => every awaited child polled and "
       "unsignalled); non-selective strategy and race/race_ok/chain/wait_until - every waker ever handed out is the parent waker of that poll and firing it wakes that parent. "
       "C01_*_trace restate it over the observable trace (bookkeeping recomputed from the events); C01_fire_total_*: every handle ever handed out names an existing slot, so firing it never fails. "
+      "Nests of combinators are covered by universality (an inner combinator is an arbitrary child, a sub-waker an arbitrary parent) and instantiated by the harness in monitor-only suites. "
       "Partial: real thread interleavings are represented by the lock windows of the model (a wake is atomic with respect to a poll's critical sections)." + COMMON)
 claim("C02", "DESIGN.md 6 C02",
       "Ledger theorems over the complete history closed by a drop (any drop point, a panic at any child poll, a poll after completion): every child dropped exactly once, "
@@ -57,12 +58,12 @@ claim("C07", "DESIGN.md 6 C07", "C07_race_ok_first_success (Pk) for the array, t
 claim("C08", "DESIGN.md 6 C08", "C08_merge_exactly_once: per input, the yields with that provenance are exactly the items it produced, in order; nothing else is returned; None iff all inputs ended (zero inputs: first poll, after the fix: commit); C08_yields_at_once (automaton eager_b): an item answered by an input is the result of that very poll - the Coq-extracted predicate is also evaluated on every trace of the crate." + COMMON)
 claim("C09", "DESIGN.md 6 C09", "C09_zip_rows (Tz): k-th row = k-th items positional; at most one item ahead; None with the first End, which is the last poll; C09_unmatched_dropped: buffered items are dropped, never yielded." + COMMON)
 claim("C10", "DESIGN.md 6 C10", "C10_chain_sequential (Pc): the sequential automaton accepts the poll list (an input is polled only when every earlier one has ended), results = items in order then None." + COMMON)
-claim("C11", "DESIGN.md 6 C11", "Slab refinement + trace theorems for FutureGroup over all histories of insert/remove/reserve/queries/poll/fire: exactly-once with the insert's key, discipline, len/keys/keys-distinct/capacity, None iff empty, ledger, insert never panics, capacity never shrinks along any history. Partial: extend is reserve + repeated insert in the runner, validated by the correspondence; the Pending half of none-iff-empty needs 'a future never answers End', which the total model allows." + COMMON)
+claim("C11", "DESIGN.md 6 C11", "Slab refinement + trace theorems for FutureGroup over all histories of insert/remove/reserve/queries/poll/fire: exactly-once with the insert's key, discipline, len/keys/keys-distinct/capacity, None iff empty, ledger, insert never panics, capacity never shrinks along any history, and the Pending half (C11_pending_means_nonempty: over every history in which no member answers End - a future cannot - every Pending is returned with a member alive). Partial: extend is reserve + repeated insert in the runner (as in the crate), validated by the correspondence." + COMMON)
 claim("C12", "DESIGN.md 6 C12", "The same theorems for StreamGroup: every item of every member exactly once in member order with its key; a member that ends is dropped in that poll and never polled again; None iff no members remain." + COMMON)
 claim("C16", "DESIGN.md 6 C16", "C16_join/merge/zip/group: in the selective strategy the model never polls a child whose last answer was Pending and whose slot has not fired since (ghost flag g_bad16 stays false for all histories); C16_*_trace: the same as a statement about the observable trace alone - the boolean monitor mon16, which recomputes the bookkeeping from the events, accepts every trace of the model (Section GhostTrace: the ghost fields are a function of the trace in every reachable state); checked against the std build." + COMMON)
 claim("C17", "DESIGN.md 6 C17", "C17_merge_window: an input whose script is items only and never runs out has provenance in any n consecutive results, whatever the others do (generic fairness lemma of rotating scans)." + COMMON)
 claim("C19", "DESIGN.md 6 C19", "C19_wait_until_gate (Pw): polls are (deadline,Pending)* (deadline,a0) (inner,_)+; results are exactly the inner's non-Pending answers." + COMMON)
-claim("C20", "DESIGN.md 6 C20", "C20_*: after a Pending return with no insertion since, every awaited child has been polled - selective and non-selective strategies, join/try_join, merge, zip, groups. Partial: 'a never-completing child does not block its siblings' second sentence is covered by the selective-polling invariant + correspondence/monitor, not a separate theorem; race/race_ok poll every unfinished child each poll by the shape of their scan." + COMMON)
+claim("C20", "DESIGN.md 6 C20", "C20_*: after a Pending return with no insertion since, every awaited child has been polled - selective and non-selective strategies, join/try_join, merge, zip, groups. Second sentence: C20_*_sibling_progress(_trace) - in any reachable state an awaited child that has signalled since its last poll (or was never polled) is polled in the very next poll unless that poll delivers a result first or unwinds, whatever the other children do; race/race_ok poll every unfinished child in every Pending poll (C20_race_polls_all, C20_race_ok_polls_all). Nests of combinators are instantiated by the harness and judged by the monitor alone (no model of a nest)." + COMMON)
 P["C04"]["text"] += COMMON
 claim("C18", "DESIGN.md 6 C18",
       "Translator route: on every run the field structure of every struct/enum of the crate (259 types, macro-generated tuple variants included) and the auto-trait impls "
@@ -74,7 +75,7 @@ claim("C18", "DESIGN.md 6 C18",
       "translator (rustdoc JSON of the current tree -> generated Coq table) + Coq evaluation proof over the table, compared with rustc's synthesized auto-trait impls; rustc probes for the async fns")
 
 CO = (" The model is an acceptor at await-resolution granularity (Model/CoStream.v); the check derives the event list (source items, closure calls with their "
-      "arguments, completions, drops, result) from every run of the real drivers under random wake-only and adversarial schedules - 14 adapter stacks x "
+      "arguments, completions, drops, result) from every run of the real drivers under random wake-only and adversarial schedules - 19 adapter stacks (five with the same adapter applied twice) x "
       "for_each / try_for_each / collect into Vec / collect into Result<Vec<_>, E>, limits 1..3 and none, take 0..len+1, pending sources, failing and panicking closures, early drops - and requires "
       "that the acceptor accepts it; a monitor re-evaluates the property on every trace. The theorems hold for every accepted event list and every adapter "
       "configuration. Partial: the poll-level behaviour of futures_buffered::FuturesUnordered and of the compiler-generated async state machines is not "
